@@ -403,8 +403,9 @@ inductive PyExcl
   compute the power reduced modulo the field prime; excluded exactly when the Python power
   (`x ^ e`, for the shifts `2 ^ e`) is not in `[0, p)` -/
   | secretExponentWraps
-  /-- selection between lists / tuples under a SECRET condition: the library zips the branches
-  (truncating to the shorter one), the plain pick does not; not composed -/
+  /-- selection between lists / tuples under a SECRET condition: the library merges the branches
+  element-wise (and refuses, `ValueError`, two lists of different lengths: no element-wise merge
+  exists), the plain pick returns one of the two objects; not composed -/
   | selectLists
   /-- array access through a SECRET index is composed for arrays of plain / secret integers (the
   value lemmas of C15); boolean or nested elements are left out -/
